@@ -81,7 +81,13 @@ def _part(e: ast.AST) -> str:
         inner = _part(t.args[0])
         return "col" if inner == "colstr" else "?"
     if isinstance(t, ast.Call) and isinstance(t.func, ast.Attribute) and t.func.attr == "group" and t.args and isinstance(t.args[0], ast.Constant):
-        return {1: "row", 2: "colstr"}.get(t.args[0].value, "?")
+        return {1: "row", 2: "colstr"}.get(t.args[0].value, f"group({t.args[0].value}) of the ID pattern")
+    # row, digits = m.groups()
+    if is_sym(t, "unpack") and isinstance(t.args[0], ast.Call) and isinstance(t.args[0].func, ast.Attribute) and t.args[0].func.attr == "groups" and not t.args[0].args \
+            and isinstance(t.args[1], ast.Constant):
+        return {0: "row", 1: "colstr"}.get(t.args[1].value, f"group({t.args[1].value + 1}) of the ID pattern")
+    if isinstance(t, ast.Subscript) and isinstance(t.value, ast.Call) and isinstance(t.value.func, ast.Attribute) and t.value.func.attr == "groups" and isinstance(t.slice, ast.Constant):
+        return {0: "row", 1: "colstr"}.get(t.slice.value, f"group({t.slice.value + 1}) of the ID pattern")
     if isinstance(t, ast.Subscript) and is_name(t.value, "well") and isinstance(t.slice, ast.Constant) and t.slice.value == 0:
         return "row[first letter only]"
     return "?"
@@ -179,7 +185,7 @@ def formulas(ctx, rule: str = "C08.formula") -> None:
             elif any("first letter only" in p.names.get(s_, "") for s_ in unknown):
                 ctx.rep.refuted(rule, c, f"{pkg} {'trough' if trough else 'plate'} position `{p.pretty()[:100]}` looks the row up by the first character of the ID (`well[0]`) instead of its "
                                 "whole letter part: an ID with a multi-letter row that does not exist in the labware (e.g. 'AB01') is numbered like row A instead of being rejected", where=w, canon=p.pretty(), expected=text)
-            elif any("§" in p.names.get(s_, "") or "[?]" in p.names.get(s_, "") for s_ in unknown) and not _poly_shape_known(p):
+            elif any("§" in p.names.get(s_, "") or "[?]" in p.names.get(s_, "") for s_ in unknown) and (not _poly_shape_known(p) or any("[?]" in p.names.get(s_, "") for s_ in unknown)):
                 ctx.rep.inconclusive(rule, c, f"position `{p.pretty()[:120]}` is outside the fragment (table lookup or unknown ID part)", where=w)
             else:
                 ctx.rep.refuted(rule, c, f"{pkg} {'trough' if trough else 'plate'} position is `{p.pretty()[:140]}`; the property requires `{text}` "
@@ -583,6 +589,19 @@ def grid_construction(ctx, rule: str = "C08.id-template") -> None:
                 outer_it, inner_it = arr.generators[0].iter, arr.elt.generators[0].iter
                 ok = attr_of_name(outer_it, f.params[0], "row_ids") and attr_of_name(inner_it, f.params[0], "column_ids") and len(arr.generators) == 1 and len(arr.elt.generators) == 1 \
                     and not arr.generators[0].ifs and not arr.elt.generators[0].ifs
+            if not ok:
+                # another spelling (a helper that takes the row / column ids, a loop, ...): decide on the evaluated table
+                from . import init_model
+
+                ev_, det_ = init_model.verdict(ctx, "_wells")
+                if ev_ == "holds":
+                    ctx.rep.holds(rule, f"{f.qualname}/_wells[evaluated]", det_, where=f.where(node.ast))
+                    continue
+                if ev_ == "unknown":
+                    ctx.rep.inconclusive(rule, f"{f.qualname}/_wells", det_, where=f.where(node.ast))
+                    continue
+                ctx.rep.refuted(rule, f"{f.qualname}/_wells[evaluated]", det_, where=f.where(node.ast))
+                continue
             ctx.rep.check(ok, rule, f"{f.qualname}/_wells", "wells[r, c]: rows nested outside columns, every row x column",
                           "the well-ID array is not built as [[id(row, column) for column in column_ids] for row in row_ids]", where=f.where(node.ast))
     for k, v in found.items():
@@ -598,7 +617,16 @@ def grid_construction(ctx, rule: str = "C08.id-template") -> None:
         gv = ctx.fv(g)
         shape = _grid_shape(gv, name)
         if shape is None:
-            ctx.rep.inconclusive(rule, f"{g.qualname}/grid", f"cannot extract (row iteration, column iteration, ID template, index) from {name}", where=g.where())
+            from . import init_model
+
+            ev_, det_ = init_model.grid_helpers_verdict(ctx, name)
+            if ev_ == "holds":
+                ctx.rep.holds(rule, f"{g.qualname}/grid[evaluated]", det_, where=g.where())
+                continue
+            if ev_ == "refuted":
+                ctx.rep.refuted(rule, f"{g.qualname}/grid[evaluated]", det_, where=g.where())
+                continue
+            ctx.rep.inconclusive(rule, f"{g.qualname}/grid", f"cannot extract (row iteration, column iteration, ID template, index) from {name}; {det_}", where=g.where())
             continue
         outer, inner, idx_ok, at = shape
         outer_r = gv.res.resolve(outer.value, at) if isinstance(outer, ast.Subscript) else outer
